@@ -412,6 +412,17 @@ where
         #[cfg(feature = "log")]
         log::debug!("{}", control);
         match control {
+            // A close request after the local Close has already been sent (eg. `try_close()`
+            // polled again) is ignored
+            ConnectionControl::Close(_)
+                if matches!(
+                    self.connection.local_state(),
+                    ConnectionState::CloseSent
+                        | ConnectionState::Discarding
+                        | ConnectionState::ClosePipe
+                        | ConnectionState::OpenClosePipe
+                        | ConnectionState::End
+                ) => {}
             ConnectionControl::Close(error) => {
                 // Record a locally initiated close with an error before the
                 // channels close, so sessions and links observe the local
